@@ -2,6 +2,7 @@ package main
 
 import (
 	"fmt"
+	"strconv"
 	"go/token"
 	"go/types"
 	"sort"
@@ -160,6 +161,11 @@ func (e *Engine) intrinsic3(name string, args []any) (any, bool) {
 		return SymStr{"(ite " + boolE(args[0]) + " " + strE(args[1]) + " " + strE(args[2]) + ")"}, true
 	case "IfBytes":
 		return BytesV{E: "(ite " + boolE(args[0]) + " " + bytesE(args[1]) + " " + bytesE(args[2]) + ")"}, true
+	case "Bound": // a harness bound (e.g. "the call makes at most N storage operations"): exceeding it is inconclusive, never a violation
+		if r := e.S.CheckWith("(not " + boolE(args[1]) + ")"); r != "unsat" {
+			e.inconclusive = append(e.inconclusive, "harness bound "+strconv.Quote(args[0].(string))+" can be exceeded on this tree: raise it")
+		}
+		return nil, true
 	case "Sat": // non-vacuity / tightness twin: the condition is satisfiable on this path (counted like a reach label)
 		if e.S.CheckWith(boolE(args[1])) == "sat" {
 			e.Reach[args[0].(string)]++
